@@ -533,11 +533,23 @@ func (e *env) project(ctx sdk.Context) any {
 		iter(prefix, func(key, val []byte) {
 			var co sdk.Coin
 			cdc.MustUnmarshal(val, &co)
-			if (co.Denom != denom && co.Denom != denom2) || len(key) < 20 {
+			if co.Denom != denom && co.Denom != denom2 {
 				inexact++
 				return
 			}
-			n := e.nameOfAddr(key[:20])
+			// key = address ++ denom.  The address may be EMPTY: AddEarnedFee looks up the
+			// owner of the provider and credits whatever it gets — for the module service's
+			// provider (no owner) that is the empty address (finding F36); reported as "none".
+			var n string
+			switch {
+			case string(key) == co.Denom:
+				n = "none"
+			case len(key) == 20+len(co.Denom) && string(key[20:]) == co.Denom:
+				n = e.nameOfAddr(key[:20])
+			default:
+				inexact++
+				return
+			}
 			row, _ := out[n].(chain.M)
 			if row == nil {
 				row = chain.M{}
